@@ -349,6 +349,7 @@ class EvalFunc:
         self.nonlocal_names = set()
         self.local_names = None
         self.closure_names = set()
+        self.enclosing_global_names = set()
         self.local_sym_table = {}
         self.doc_string = ast.get_docstring(func_def)
         self.num_posonly_arg = len(self.func_def.args.posonlyargs)
@@ -670,6 +671,14 @@ class EvalFunc:
         global_names = set()
         var_names = set(args)
         self.local_names = set(args)
+        parent_func = ast_ctx.curr_func
+        if parent_func:
+            # names that are global in the enclosing function: the ones it declares global, and
+            # the ones global in its own enclosing functions that it doesn't bind itself
+            self.enclosing_global_names = set(parent_func.global_names)
+            for name in parent_func.enclosing_global_names:
+                if name not in (parent_func.local_names or set()):
+                    self.enclosing_global_names.add(name)
         for stmt in self.func_def.body:
             self.has_closure = self.has_closure or await self.check_for_closure(stmt)
             var_names = var_names.union(
@@ -697,8 +706,8 @@ class EvalFunc:
                 sym_table_idx = 1
             else:
                 sym_table_idx = 0
-                if ast_ctx.curr_func and var_name in ast_ctx.curr_func.global_names:
-                    # declared global in the enclosing function, so it is global here too
+                if var_name in self.enclosing_global_names:
+                    # declared global in an enclosing function, so it is global here too
                     continue
             for sym_table in reversed(ast_ctx.sym_table_stack[sym_table_idx:] + [ast_ctx.sym_table]):
                 if var_name in sym_table and isinstance(sym_table[var_name], EvalLocalVar):
